@@ -83,6 +83,9 @@ func genC08(seed int64, tier string) *Scenario {
 			}
 			sc.Ops = append(sc.Ops, Op{Kind: "fswrite", Path: n, Data: Bytes(c08Content(r, n))})
 			exists[n] = true
+			if r.Intn(4) == 0 {
+				sc.Ops = append(sc.Ops, Op{Kind: "touchq", Path: names[r.Intn(len(names))]})
+			}
 			if autoDeliver {
 				sc.Ops = append(sc.Ops, Op{Kind: "deliver"})
 			}
@@ -106,6 +109,16 @@ func genC08(seed int64, tier string) *Scenario {
 				continue
 			}
 			sc.Ops = append(sc.Ops, Op{Kind: "change", Path: n, Edits: []Edit{{Full: true, Text: c08Content(r, n)}}})
+			if r.Intn(4) == 0 && !faulted {
+				// unsaved edit, then activity elsewhere, then a dirty-point check
+				o := names[r.Intn(len(names))]
+				if o != n && !open[o] {
+					sc.Ops = append(sc.Ops, Op{Kind: "fswrite", Path: o, Data: Bytes(c08Content(r, o))})
+					exists[o] = true
+				}
+				sc.Ops = append(sc.Ops, Op{Kind: "deliver"}, Op{Kind: "check"})
+				continue
+			}
 			if r.Intn(3) > 0 {
 				sc.Ops = append(sc.Ops, Op{Kind: "save", Path: n, NoEvt: r.Intn(4) == 0})
 				exists[n] = true
@@ -143,8 +156,8 @@ func genC08(seed int64, tier string) *Scenario {
 			switch r.Intn(3) {
 			case 0: // duplicate / spurious event
 				sc.Ops = append(sc.Ops, Op{Kind: "event", Path: n})
-			case 1: // batch delivery of whatever is queued
-				sc.Ops = append(sc.Ops, Op{Kind: "deliver", N: 1 + r.Intn(3)})
+			case 1: // batch delivery of whatever is queued, together with a no-op change of another file
+				sc.Ops = append(sc.Ops, Op{Kind: "touchq", Path: names[r.Intn(len(names))]}, Op{Kind: "deliver", N: 1 + r.Intn(3)})
 			default: // write twice and delete before the first event is delivered
 				if !open[n] {
 					sc.Ops = append(sc.Ops, Op{Kind: "fswrite", Path: n, Data: Bytes(c08Content(r, n))}, Op{Kind: "fsremove", Path: n})
